@@ -365,3 +365,42 @@ Proof.
       * apply in_app_or in H as [H|[<-|[]]]; [apply (Hdis _ H) | rewrite (proj2 (find_some _ _ _ Hf)); exact Hne].
       * exact Hj.
 Qed.
+
+(* ---------- more on the undo / redo walks ---------- *)
+
+Definition stored (d : forkdb) (x : N) : Prop := exists e, find x (store d) = Some e.
+
+(* every id of the undo chain except the last one is stored *)
+Lemma undo_stored d : forall f cur l, undo_chain f d cur = Some l ->
+  exists body lst, l = body ++ [lst] /\ Forall (stored d) body /\ link_of d lst = 0.
+Proof.
+  induction f as [|f IH]; intros cur l H; [discriminate|].
+  cbn [undo_chain] in H. destruct (N.eqb_spec (link_of d cur) 0) as [E|E].
+  - injection H as <-. exists [], cur. repeat split; [constructor | exact E].
+  - destruct (undo_chain f d (link_of d cur)) as [l'|] eqn:R; [|discriminate]. injection H as <-.
+    destruct (IH _ _ R) as (body & lst & -> & Hb & Hl).
+    exists (cur :: body), lst. repeat split; [|exact Hl]. constructor; [|exact Hb].
+    unfold link_of in E. destruct (find cur (store d)) as [e|] eqn:F; [exists e; exact F | contradiction].
+Qed.
+
+Lemma redo_stored d seen : forall f cur acc r j, redo_chain f d seen cur acc = Some (Some (r, j)) ->
+  Forall (stored d) acc -> Forall (stored d) r /\ memN j seen = true.
+Proof.
+  induction f as [|f IH]; intros cur acc r j H Ha; [discriminate|].
+  cbn [redo_chain] in H. destruct (memN cur seen) eqn:M.
+  - injection H as <- <-. auto.
+  - destruct (N.eqb_spec (link_of d cur) 0) as [E|E]; [discriminate|].
+    apply IH in H; [exact H|]. constructor; [|exact Ha].
+    unfold link_of in E. destruct (find cur (store d)) as [e|] eqn:F; [exists e; exact F | contradiction].
+Qed.
+
+Lemma take_until_prefix j : forall l, exists rest, l = take_until j l ++ rest /\ (In j l -> exists r, rest = j :: r).
+Proof.
+  induction l as [|x l IH]; cbn [take_until].
+  - exists []. split; [reflexivity | intros []].
+  - destruct (N.eqb_spec x j) as [E|E].
+    + exists (x :: l). split; [reflexivity|]. intros _. exists l. rewrite E. reflexivity.
+    + destruct IH as (rest & Heq & Hin). exists rest. split; [cbn [app]; f_equal; exact Heq|].
+      intros [H|H]; [contradiction | apply Hin; exact H].
+Qed.
+
